@@ -222,6 +222,9 @@ pub fn generate(a: &Args) {
         }
         let mut ev = base_ev(&args, &r);
         ev["fits"] = json!(fits); ev["words"] = json!(words); ev["out"] = json!(outb); ev["ref"] = json!(reference); ev["pat"] = json!(bad.unwrap_or(pat)); ev["malformed"] = json!(bad.is_some());
+        // everything TLC needs to compute the expected file by itself (EncodeStream / Encoder / Chain)
+        ev["rows"] = json!(rows); ev["n"] = json!(ncw); ev["input"] = json!(input);
+        ev["patb"] = json!(patv.clone().unwrap_or(vec![true]).iter().map(|&b| b as u8).collect::<Vec<_>>());
         out.ev("Encode", "ok", ev);
     }
     // ber: one result line per requested Eb/N0
